@@ -23,7 +23,10 @@ TRUSTED_BASE = [
     'Flocq definitions of round, FLT_exp, succ/pred, B2R, b64_of_bits as the meaning of the IEEE terms',
     'the reading of IEEE 754-2008 written in coq/theories (spec side), meant to be read',
     'extraction: ExtrOcamlBasic only (Extract Inductive bool, option, unit, list, prod, sumbool, sumor); ocamlopt 4.13; ocaml/driver.ml, zhex.ml, ops_table.ml',
+    'extraction is cross-checked on every run: sampled executed cases are judged again by vm_compute inside Coq (lib/xcheck.py); what remains trusted there is the Python rendering of a case as a Coq term',
     'correspondence check = differential testing of the real crate (harness/src/main.rs dispatch, to_bits hook, catch_unwind) against the extracted model: not a proof about the Rust',
+    'table translator: the dump hook (src/verif_hooks.rs, compiled crate), lib/tables.py (text -> Coq literals) and the closed forms of coq/tables/TableSpec.v as the meaning of each table',
+    'layer I (where listed among the obligations): the translator layerI/rs2v.py and its stated semantics of the Rust subset (layerI/REPORT.md section 3); the theorems are re-checked against the Gallina regenerated from the current source',
 ]
 
 
